@@ -164,6 +164,27 @@ def run_history(n, ndirs, ops, async_kill_rng=None):
 
 def oracle(n, ops, outs, exists_after=None):
     fails = []
+    # the directory is removed when the LAST dataset sharing a cache opened with clear=True is released, and not before
+    if exists_after is not None:
+        wr = []          # wrappers in opening order: [dir, clear, holders]
+        for t, (op, o) in enumerate(zip(ops, outs)):
+            if op['k'] == 'open' and isinstance(o, dict) and 'opened' in o:
+                wr.append([op['dir'], op['clear'], 1])
+            elif op['k'] == 'open' and o == 'ok':
+                wr.append([op['dir'], op['clear'], 1])
+            elif op['k'] == 'copy' and op['w'] < len(wr):
+                wr[op['w']][2] += 1
+            elif op['k'] == 'kill':
+                for x in wr:
+                    x[2] = 0
+            elif op['k'] == 'release' and op['w'] < len(wr) and wr[op['w']][2] > 0:
+                x = wr[op['w']]
+                x[2] -= 1
+                there = exists_after[t][x[0]]
+                if x[2] == 0 and x[1] and there:
+                    fails.append(('clear_true_directory_survives_last_release', {'t': t, 'op': op}))
+                if x[2] > 0 and not there:
+                    fails.append(('directory_removed_before_last_release', {'t': t, 'op': op}))
     for t, (op, o) in enumerate(zip(ops, outs)):
         # an open that is refused (non-empty directory, reuse=False) must leave the stored examples alone
         if op['k'] == 'open' and o == 'refused' and exists_after is not None and not exists_after[t][op['dir']]:
